@@ -198,9 +198,14 @@ func genC06Msg(t *rapid.T, zone string, ext ExtSpec) (*rgen.Msg, int, int) {
 		c, _ := genC17(t)
 		m = c.Msg
 	default:
-		o := rgen.DefaultGenOpts(zone)
-		o.NoPartialDescriptors = true
-		m, _ = rgen.GenMsg(t, o)
+		if rapid.Bool().Draw(t, "conflicting") {
+			// determinism is claimed for ALL inputs: also messages that describe a trip or vehicle twice, or link one vehicle to several trips
+			m, _ = genAnyMsg(t, zone)
+		} else {
+			o := rgen.DefaultGenOpts(zone)
+			o.NoPartialDescriptors = true
+			m, _ = rgen.GenMsg(t, o)
+		}
 	}
 	// extra id-bearing vehicles and an alert with several fallback routes
 	nV := rapid.IntRange(0, 5).Draw(t, "extraVehicles")
